@@ -12,10 +12,18 @@ EXTENDS NifGraph, TLC, Json
 CONSTANTS MaxBlocks,    \* bound on the number of blocks
           HasSizes,     \* version with (TRUE) / without (FALSE) a size table
           Rich,         \* richer slot patterns (controller / collision slots of nodes)
+          Alphabet,     \* "edit" (C06) or "sort" (C04, C15: nodes, shapes, collision bodies, constraints)
+          Corrupt,      \* "sort" alphabet: also enumerate out-of-range reference values (C15)
+          OnlyAdd,      \* explore Add only (graph enumeration for C04 / C15)
+          ExportStates, \* print every distinct state (graph) instead of every transition
           Export
 VARIABLES st, act, ok
 
 Vals(n) == {NPOS} \cup (0..(n - 1))
+\* reference values for the "sort" alphabet: well-formed ones, plus out-of-range ones when Corrupt (C15)
+\* (forward references are allowed: blocks are only appended, so a parent listed before its children needs them)
+RefVals(n) == {NPOS} \cup (0..(MaxBlocks - 1)) \cup (IF Corrupt THEN {MaxBlocks, MaxBlocks + 1} ELSE {})
+ColBlocks2(n) == {[type |-> "bhkCollisionObject", refs |-> <<a>>, ptrs |-> <<NPOS>>] : a \in RefVals(n)}
 Seqs(S, k) == UNION {[1..j -> S] : j \in 0..k}
 \* blocks that can be added when the model will then have n blocks (well-formed references, self included)
 \* NiNode refs = <<controller, collision>> \o children ; bhkCollisionObject refs = <<body>>, ptrs = <<target>>
@@ -23,7 +31,20 @@ NodeBlocks(n) == {[type |-> "NiNode", refs |-> <<NPOS, NPOS>> \o c, ptrs |-> <<>
                  \cup (IF Rich THEN {[type |-> "NiNode", refs |-> <<a, b>>, ptrs |-> <<>>] : a, b \in Vals(n)} ELSE {})
 LeafBlocks == {[type |-> "NiStringExtraData", refs |-> <<>>, ptrs |-> <<>>]}
 ColBlocks(n) == {[type |-> "bhkCollisionObject", refs |-> <<a>>, ptrs |-> <<b>>] : a, b \in Vals(n)}
-NewBlocks(n) == NodeBlocks(n) \cup LeafBlocks \cup ColBlocks(n)
+\* alphabet "sort" (C04 / C15): the kinds the sorter distinguishes.  NiTriShape refs = <<controller, collision, data, skin,
+\* shader, alpha>>; bhkRigidBody refs = <<shape>> \o constraints; bhkHingeConstraint ptrs = entities
+ShapeBlocks(n) == {[type |-> "NiTriShape", name |-> nm, refs |-> <<NPOS, c, d, NPOS, NPOS, NPOS>>, ptrs |-> <<>>] :
+                        nm \in {"A", "B"}, c \in (IF Rich THEN RefVals(n) ELSE {NPOS}), d \in RefVals(n)}
+SortNodeBlocks(n) == {[type |-> "NiNode", name |-> "N", refs |-> <<NPOS, NPOS>> \o ch, ptrs |-> <<>>] : ch \in Seqs(RefVals(n), 2)}
+                     \cup {[type |-> "NiNode", name |-> "N", refs |-> <<NPOS, c>>, ptrs |-> <<>>] : c \in RefVals(n)}
+                     \cup {[type |-> "BSOrderedNode", name |-> "O", refs |-> <<NPOS, NPOS>> \o ch, ptrs |-> <<>>] : ch \in [1..2 -> RefVals(n)]}
+                     \cup (IF Rich THEN {[type |-> "NiNode", name |-> "N", refs |-> <<NPOS, c>> \o ch, ptrs |-> <<>>] :
+                                            c \in RefVals(n) \ {NPOS}, ch \in Seqs(RefVals(n), 2) \ {<<>>}} ELSE {})
+BodyBlocks(n) == {[type |-> "bhkRigidBody", refs |-> <<NPOS>> \o cs, ptrs |-> <<>>] : cs \in Seqs(RefVals(n), 1)}
+ConstraintBlocks(n) == {[type |-> "bhkHingeConstraint", refs |-> <<>>, ptrs |-> e] : e \in Seqs(RefVals(n), IF Rich THEN 2 ELSE 1)}
+SortBlocks(n) == SortNodeBlocks(n) \cup ShapeBlocks(n) \cup ColBlocks2(n) \cup BodyBlocks(n) \cup ConstraintBlocks(n)
+                 \cup {[type |-> "NiTriShapeData", refs |-> <<NPOS>>, ptrs |-> <<>>]}
+NewBlocks(n) == IF Alphabet = "sort" THEN SortBlocks(n) ELSE NodeBlocks(n) \cup LeafBlocks \cup ColBlocks(n)
 PlainBlocks == {[type |-> "NiNode", refs |-> <<NPOS, NPOS>>, ptrs |-> <<>>],
                 [type |-> "NiStringExtraData", refs |-> <<>>, ptrs |-> <<>>],
                 [type |-> "bhkCollisionObject", refs |-> <<NPOS>>, ptrs |-> <<NPOS>>]}
@@ -34,14 +55,12 @@ Perms(n) == {p \in [1..n -> 0..(n - 1)] : \A a, b \in 1..n : a # b => p[a] # p[b
 Created == [hs |-> HasSizes, types |-> <<"NiNode">>, tidx |-> <<0>>, sz |-> IF HasSizes THEN <<0>> ELSE <<>>,
             blocks |-> <<[type |-> "NiNode", refs |-> <<NPOS, NPOS>>, ptrs |-> <<>>]>>]
 
-Init == st = Created /\ act = [op |-> "Create"] /\ ok = TRUE
+Empty == [hs |-> HasSizes, types |-> <<>>, tidx |-> <<>>, sz |-> <<>>, blocks |-> <<>>]
+Init == st = (IF OnlyAdd THEN Empty ELSE Created) /\ act = [op |-> "Create"] /\ ok = TRUE
 
 Do(r, a, viol) == st' = r.t /\ act' = a /\ ok' = (viol = {})
 
-Next ==
-    \/ /\ N(st) < MaxBlocks
-       /\ \E b \in NewBlocks(N(st) + 1) :
-            LET r == AddBlock_Exact(st, b) IN Do(r, [op |-> "Add", b |-> b], AddViol(st, r.W, r.t))
+OtherOps ==
     \/ \E i \in 0..(N(st) - 1) :
             LET r == DeleteBlock_Exact(st, i) IN Do(r, [op |-> "Del", i |-> i], DeleteViol(st, i, r.W, r.t))
     \/ \E i \in 0..(N(st) - 1), b \in PlainBlocks :
@@ -55,11 +74,19 @@ Next ==
     \/ LET r == Prune_Exact(st) IN Do(r, [op |-> "Prune"], PruneViol(st, r.W, r.t))
     \/ LET r == PruneNodes_Exact(st) IN Do(r, [op |-> "PruneNodes"], PruneNodesViol(st, r.W, r.t))
 
+Next ==
+    \/ /\ N(st) < MaxBlocks
+       /\ \E b \in NewBlocks(N(st) + 1) :
+            LET r == AddBlock_Exact(st, b) IN Do(r, [op |-> "Add", b |-> b], AddViol(st, r.W, r.t))
+    \/ ~OnlyAdd /\ OtherOps
+
 vars == <<st, act, ok>>
 Spec == Init /\ [][Next]_vars
 View == st
 
 Refines == ok                         \* the transcription never leaves the property-level relation
 MirrorInv == HeaderMirror(st)         \* C06: header describes the blocks in every reachable state
+\* graphs are exported with two flags: wf (well-typed and acyclic: the quantifier of C04) - all others only serve C15
+EmitState == ExportStates => PrintT(ToJson([g |-> st, wf |-> WellTyped(st) /\ Acyclic(st)]))
 Emit == Export => PrintT(ToJson([pre |-> st, a |-> act', post |-> st', ok |-> ok']))
 =============================================================================
